@@ -402,19 +402,32 @@ def f3_resolver_shape(ctx: Ctx) -> None:
     hn = roles.canonical(h.node, {'v': vname, 'value_type': vt})
     lp = [n for n in walk_local(hn) if isinstance(n, ast.For) and isinstance(n.target, ast.Name) and n.target.id == 'v' and n.lineno == lp.lineno][0]
     # each flag is named by the test of the current element under which it is set
-    role_of_test = {
-        "isinstance(v, (tuple, list)) or hasattr(v, '__slots__')": 'has_tuple', 'isinstance(v, Enum)': 'has_enum',
-        'value_type == str or value_type == np.str_': 'has_str', 'value_type in INEXACT_TYPES': 'has_inexact',
-        'value_type == int and abs(v) > INT_MAX_COERCIBLE_TO_FLOAT': 'has_big_int',
-    }
+    # each flag is named by what the test of the current element, under which it is set, looks at (not by its spelling)
+    def role_of(t: ast.expr) -> tp.Optional[str]:
+        txt = norm(t)
+        names = {x.id for x in ast.walk(t) if isinstance(x, ast.Name)}
+        if 'INT_MAX_COERCIBLE_TO_FLOAT' in names:
+            return 'has_big_int'
+        if 'INEXACT_TYPES' in names:
+            return 'has_inexact'
+        if 'Enum' in names:
+            return 'has_enum'
+        if 'tuple' in names or '__slots__' in txt:
+            return 'has_tuple'
+        if 'str' in names or 'np.str_' in txt:
+            return 'has_str'
+        return None
     flags_set = [a for a in ast.walk(lp) if isinstance(a, ast.Assign) and isinstance(a.targets[0], ast.Name) and a.targets[0].id in flag_names
                  and isinstance(a.value, ast.Constant) and a.value.value is True]
     found: tp.Dict[str, str] = {}
     for a in flags_set:
         tests = _enclosing_tests(lp, a)
-        if tests and tests[-1][1] and norm(tests[-1][0]) in role_of_test:
-            found[role_of_test[norm(tests[-1][0])]] = a.targets[0].id
-        elif tests and not tests[-1][1] and norm(tests[-1][0]) == 'value_type == str or value_type == np.str_':
+        if not tests:
+            continue
+        r = role_of(tests[-1][0])
+        if tests[-1][1] and r is not None:
+            found[r] = a.targets[0].id
+        elif not tests[-1][1] and r == 'has_str':
             found['has_non_str'] = a.targets[0].id
     hn2 = roles.canonical(hn, found)
     src = [norm(n) for n in walk_local(hn2) if isinstance(n, ast.If)]
@@ -657,3 +670,47 @@ def f1_full_for_fill(ctx: Ctx) -> None:
         else:
             ctx.bad(R, f, c, f'on some path `{norm(c)[:50]}` is typed `{bad[:60]}`, which is not resolved against the dtype of the fill element: the fill value is cast into the '
                     'target dtype', key=key)
+
+
+NP_ABSTRACT_SCALARS = ('np.inexact', 'np.integer', 'np.floating', 'np.complexfloating', 'np.number', 'np.generic', 'np.signedinteger', 'np.unsignedinteger', 'np.flexible',
+                       'np.character')
+
+
+def type_membership_by_subclass(ctx: Ctx) -> None:
+    R = 'I.type-membership-by-subclass'
+    ctx.rule(R, 'a class taken with type(v) is tested against a tuple of types with `in` only when every member of the tuple is a concrete class: `type(v) in T` compares by '
+             'equality, so an abstract NumPy scalar class in T (np.inexact, np.integer, np.number, ...) never matches any value — np.float64 is a subclass of float and of '
+             'np.inexact but equal to neither; the dtype decision that depends on the test (is there a float next to a big int?) then goes the wrong way', floor=1)
+    prog = ctx.prog
+    util = [m for m in prog.modules.values() if m.short == 'util'][0]
+    consts: tp.Dict[str, ast.expr] = {}
+    for s in util.tree.body:
+        if isinstance(s, ast.Assign) and len(s.targets) == 1 and isinstance(s.targets[0], ast.Name) and isinstance(s.value, (ast.Tuple, ast.Set, ast.List)):
+            consts[s.targets[0].id] = s.value
+    n = 0
+    for f in prog.all_funcs():
+        if isinstance(f.node, ast.Lambda) or f.module.short in SKIP_MODULES:
+            continue
+        tnames = {a.targets[0].id for a in walk_local(f.node) if isinstance(a, ast.Assign) and isinstance(a.targets[0], ast.Name) and
+                  ((isinstance(a.value, ast.Call) and call_name(a.value) == 'type') or (isinstance(a.value, ast.Attribute) and a.value.attr == '__class__'))}
+        for c in walk_local(f.node):
+            if not (isinstance(c, ast.Compare) and len(c.ops) == 1 and isinstance(c.ops[0], (ast.In, ast.NotIn))):
+                continue
+            left = c.left
+            is_type = (isinstance(left, ast.Name) and left.id in tnames) or (isinstance(left, ast.Call) and call_name(left) == 'type') or \
+                (isinstance(left, ast.Attribute) and left.attr == '__class__')
+            if not is_type:
+                continue
+            cont = c.comparators[0]
+            members = cont if isinstance(cont, (ast.Tuple, ast.Set, ast.List)) else consts.get(cont.id) if isinstance(cont, ast.Name) else None
+            if members is None:
+                continue
+            n += 1
+            key = f'{f.qualname.split(".", 1)[1]}:{norm(c)[:50]}'
+            abstract = [norm(e) for e in members.elts if norm(e) in NP_ABSTRACT_SCALARS]
+            if abstract:
+                ctx.bad(R, f, c, f'`{norm(c)}` compares a class by equality with a tuple holding the abstract {abstract}: no NumPy scalar is ever of exactly that class '
+                        '(use issubclass / isinstance)', key=key)
+            else:
+                ctx.ok(R, f, c, 'every member of the tuple is a concrete class', key=key)
+    ctx.require(n >= 1, 'type-in-tuple membership tests')
